@@ -62,3 +62,25 @@ Theorem C10_literal_iff_wellformed_bounded : forall s,
   (length s <= 4)%nat -> Forall (fun c => In c lit_alphabet) s -> spec_class s = model_class s.
 Proof. exact literal_iff_wellformed_bounded. Qed.
 Print Assumptions C10_literal_iff_wellformed_bounded.
+
+(* Unbounded: for EVERY text, every decimal / octal / hexadecimal / binary integer-constant token of the
+   lexer model's token stream has a spelling  x ++ t  with x free of u/U/l/L and t one of the rule's finitely
+   many suffixes (split computed from the regenerated rule table), and _parse_constant's classifier returns -
+   never raising ValueError - exactly the type that suffix spells (`unsigned ` per u/U, `long ` per l/L, `int`).
+   Uses: a denotational semantics of the regex ASTs for which the matcher is proved sound. *)
+From PV Require Import ParserDecl IntLiteral.
+Theorem C10_integer_tokens_typed_by_suffix : forall fuel st rest,
+  Forall (fun i => match i with
+                   | Lexer.RTok k v _ _ _ => is_int_kind k = true ->
+                       exists x t, v = x ++ t /\ Forall (fun c => ~ In c BAD) x /\
+                                   int_const_type false v = Some (spec_type t)
+                   | _ => True end)
+         (fst (fst (Lexer.raw_lex fuel st rest))).
+Proof. exact lexer_int_tokens_typed. Qed.
+Print Assumptions C10_integer_tokens_typed_by_suffix.
+
+(* non-vacuity: 0x1FuLL is such a token and gets `unsigned long long int` *)
+Example C10_int_typed_example :
+  int_const_type false (s2l "0x1FuLL") = Some (s2l "unsigned long long int")
+  /\ spec_type (s2l "uLL") = s2l "unsigned long long int".
+Proof. vm_compute. split; reflexivity. Qed.
